@@ -14,19 +14,19 @@ import tlc
 from common import Inconclusive, log
 
 ALL = ["NoCrash", "RuntimeAfterRegistrations", "NoEventBeforeAllNext", "DoneOnlyAfterAll", "NoGhostInvoke",
-       "StreamOwnerIsReserver", "OkHasBody", "ResetIsFresh"]
+       "StreamOwnerIsReserver", "OkHasBody", "ResetIsFresh", "EventsOnlyToSubscribers"]
 
 # name -> constants.  Measured on 16 cores: base 14 k distinct states / 3 s, misuse 27 k / 3 s, race 194 k / 12 s,
 # faults 2.9 M / 76 s, deep 
 CONFIGS = {
-    "base":   dict(callers="{1}", calls=7, inv=2, exits=0, timers=0, race="FALSE", misuse="FALSE"),
+    "base":   dict(callers="{1}", calls=7, inv=2, exits=0, timers=0, race="FALSE", misuse="FALSE", shut=1),
     "misuse": dict(callers="{1}", calls=6, inv=1, exits=0, timers=0, race="FALSE", misuse="TRUE"),
     "race":   dict(callers="{1}", calls=5, inv=2, exits=0, timers=1, race="TRUE", misuse="FALSE"),
-    "faults": dict(callers="{1}", calls=6, inv=2, exits=1, timers=1, race="FALSE", misuse="FALSE"),
+    "faults": dict(callers="{1}", calls=6, inv=2, exits=1, timers=1, race="FALSE", misuse="FALSE", shut=1),
     "two":    dict(callers="{1, 2}", calls=5, inv=2, exits=0, timers=1, race="FALSE", misuse="FALSE"),
     "deep":   dict(callers="{1}", calls=8, inv=2, exits=1, timers=1, race="TRUE", misuse="FALSE"),
     # simulation only (lib/mcsim.py): bounds that exhaustive search could not cover
-    "sim":    dict(callers="{1}", calls=16, inv=3, exits=1, timers=1, race="FALSE", misuse="TRUE"),
+    "sim":    dict(callers="{1}", calls=16, inv=3, exits=1, timers=1, race="FALSE", misuse="TRUE", shut=0),
     "simok":  dict(callers="{1}", calls=14, inv=3, exits=1, timers=1, race="FALSE", misuse="FALSE"),
 }
 QUICK = ["base", "misuse", "race"]
@@ -43,6 +43,7 @@ CONSTANTS
   MaxInv = %(inv)d
   MaxExits = %(exits)d
   MaxTimers = %(timers)d
+  MaxShutdowns = %(shut)d
   RaceTimer = %(race)s
   ExtSubs <- MCExtSubs
   IntNames = {}
@@ -57,6 +58,7 @@ CHECK_DEADLOCK FALSE
 
 def cfg_text(name, invariants, constraint=None, asfound="{}"):
     p = dict(CONFIGS[name])
+    p.setdefault("shut", 0)
     p.update(invariants=" ".join(invariants), constraint=("CONSTRAINT " + constraint) if constraint else "", asfound=asfound)
     return TEMPLATE % p
 
